@@ -39,6 +39,7 @@ def execute_case(prop, case, want_trace=False):
     import gc
     from simos import core, shims
     gc.disable()
+    want_trace = want_trace or bool(case.get('want_decisions'))
     knobs = dict(DEFAULT_KNOBS)
     knobs.update(case.get('knobs') or {})
     pol = case.get('policy') or {'kind': 'random', 'p_stay': 0.5}
